@@ -114,7 +114,7 @@ pub fn solve<'a>(ctx: &Ctx<'a>, goal: &Goal, level: usize, ss: &SS<'a>, cont: &m
                 "count" => bip_count(b.clone(), ss),
                 other => panic!("reference interpreter: built-in {} not modelled", other),
             };
-            match res { Some(s) => cont(&s), None => Flow::Next }
+            match res { Some(s) => { if cyclic(&s) { ctx.cyclic.set(true); return Flow::Halt; } cont(&s) }, None => Flow::Next }
         },
         Goal::Nil => cont(ss),
     }
